@@ -699,6 +699,7 @@ def extras(only=None):
 
 
 def main():
+    hlib.prior_tasks(wide=False)
     p = hlib.payload()
     if p and 'extra' in p:
         hlib.emit({'extras': extras(only=p['extra'])})
